@@ -177,3 +177,169 @@ Print Assumptions write_unsafe_corrupts.
 Print Assumptions write_safe_after_get_results.
 Print Assumptions write_safe_after_set_iter.
 Print Assumptions write_safe_after_result.
+
+(* ---------------------------------------------------------------- well-formedness of EVERY reachable state *)
+(* locations held by the live fields, by the caller and by in-memory entries are valid heap locations: an invariant of
+   every operation for EVERY configuration (shallow reads, non-copying saves, in-place solves, unpinned folders) and
+   every op list, user writes included — independent of the store/ghost relation `inv`. *)
+Definition ltH (s : state) (ls : list loc) : Prop := Forall (fun l => l < length (heap s)) ls.
+Record wfh (s : state) : Prop := mkwfh {
+  wf_live : ltH s (live s);
+  wf_hand : ltH s (handed s);
+  wf_store : forall m ls, In (InMem m ls) (store s) -> ltH s ls
+}.
+
+Lemma length_wr_list : forall lv h, length (wr_list h lv) = length h.
+Proof. induction lv as [|[l v] t IH]; intros h; simpl; auto. rewrite IH. apply length_wr. Qed.
+
+Lemma wfh_init : forall c, wfh (init c).
+Proof.
+  intros c. constructor; unfold ltH; simpl.
+  - apply Forall_forall. intros x Hx. apply repeat_spec in Hx. subst. lia.
+  - constructor.
+  - intros m ls [].
+Qed.
+
+Lemma read_entry_wf : forall c s i h1 m ls, wfh s -> read_entry c s i = Some (h1, (m, ls)) ->
+  length (heap s) <= length h1 /\ Forall (fun l => l < length h1) ls.
+Proof.
+  intros c s i h1 m ls Wf R. unfold read_entry in R.
+  destruct (nth_error (store s) i) as [[m0 ls0|p]|] eqn:E; try discriminate.
+  - destruct (deep_read c); inversion R; subst; simpl.
+    + rewrite app_length. split; [lia|]. apply Forall_seq_lt. lia.
+    + split; auto. apply (wf_store Wf m ls). eapply nth_error_In; eauto.
+  - destruct (lookup _ (disk s)) as [g|]; try discriminate. inversion R; subst; simpl.
+    rewrite app_length. split; [lia|]. apply Forall_seq_lt. lia.
+Qed.
+
+Lemma wfh_heap_grow : forall s s', wfh s -> length (heap s) <= length (heap s') ->
+  live s' = live s -> handed s' = handed s -> store s' = store s -> wfh s'.
+Proof.
+  intros s s' Wf L E1 E2 E3. constructor; unfold ltH.
+  - rewrite E1. eapply Forall_lt_mono; [|apply (wf_live Wf)]. auto.
+  - rewrite E2. eapply Forall_lt_mono; [|apply (wf_hand Wf)]. auto.
+  - intros m ls H. rewrite E3 in H. eapply Forall_lt_mono; [|apply (wf_store Wf m ls H)]. auto.
+Qed.
+
+Lemma wfh_set_iter : forall c i s, wfh s -> wfh (set_iter c i s).
+Proof.
+  intros c i s Wf. unfold set_iter. destruct (read_entry c s i) as [[h1 [m ls]]|] eqn:R; auto.
+  destruct (read_entry_wf _ _ Wf R) as [L F].
+  destruct (restore_binds c); constructor; unfold ltH; simpl.
+  - apply Forall_merge; auto. eapply Forall_lt_mono; [|apply (wf_live Wf)]. auto.
+  - auto.
+  - intros m0 ls0 H. eapply Forall_lt_mono; [|apply (wf_store Wf m0 ls0 H)]. auto.
+  - apply Forall_merge.
+    + apply Forall_seq_lt. rewrite app_length. lia.
+    + eapply Forall_lt_mono; [|apply (wf_live Wf)]. rewrite app_length. lia.
+  - eapply Forall_lt_mono; [|apply F]. rewrite app_length. lia.
+  - intros m0 ls0 H. eapply Forall_lt_mono; [|apply (wf_store Wf m0 ls0 H)]. rewrite app_length. lia.
+Qed.
+
+Lemma wfh_get_results : forall c i s, wfh s -> wfh (get_results c i s).
+Proof.
+  intros c i s Wf. unfold get_results. destruct (read_entry c s i) as [[h1 [m ls]]|] eqn:R; auto.
+  destruct (read_entry_wf _ _ Wf R) as [L F]. constructor; unfold ltH; simpl; auto.
+  - eapply Forall_lt_mono; [|apply (wf_live Wf)]. auto.
+  - intros m0 ls0 H. eapply Forall_lt_mono; [|apply (wf_store Wf m0 ls0 H)]. auto.
+Qed.
+
+Lemma wfh_result_q : forall c i k s, wfh s -> wfh (result_q c i k s).
+Proof.
+  intros c i k s Wf. pose proof (wfh_set_iter c i Wf) as J. unfold result_q. constructor; unfold ltH; simpl.
+  - eapply Forall_lt_mono; [|apply (wf_live J)]. rewrite app_length. lia.
+  - constructor; auto. rewrite app_length. simpl. lia.
+  - intros m0 ls0 H. eapply Forall_lt_mono; [|apply (wf_store J m0 ls0 H)]. rewrite app_length. lia.
+Qed.
+
+Lemma wfh_write : forall s k v, wfh s ->
+  wfh (match nth_error (handed s) k with
+       | None => s
+       | Some l => mkst (wr (heap s) l v) (live s) (mesh s) (nmesh s) (store s) (folder s) (disk s) (handed s) (ghost s)
+       end).
+Proof.
+  intros s k v Wf. destruct (nth_error (handed s) k); auto.
+  apply (@wfh_heap_grow s); simpl; auto. rewrite length_wr. lia.
+Qed.
+
+Theorem wfh_step : forall c o s, wfh s -> wfh (step c o s).
+Proof.
+  intros c o s Wf. destruct o; simpl.
+  - (* Solve *) destruct (solve_rebinds c).
+    + constructor; unfold ltH; simpl.
+      * apply Forall_seq_lt. rewrite app_length. lia.
+      * eapply Forall_lt_mono; [|apply (wf_hand Wf)]. rewrite app_length. lia.
+      * intros m ls H. eapply Forall_lt_mono; [|apply (wf_store Wf m ls H)]. rewrite app_length. lia.
+    + apply (@wfh_heap_grow s); simpl; auto. rewrite length_wr_list. lia.
+  - (* SaveIter *) destruct (folder s =? 0); [destruct (save_copies c)|].
+    + constructor; unfold ltH; simpl.
+      * eapply Forall_lt_mono; [|apply (wf_live Wf)]. rewrite app_length. lia.
+      * eapply Forall_lt_mono; [|apply (wf_hand Wf)]. rewrite app_length. lia.
+      * intros m ls H. apply in_app_or in H. destruct H as [H|[H|[]]].
+        -- eapply Forall_lt_mono; [|apply (wf_store Wf m ls H)]. rewrite app_length. lia.
+        -- inversion H; subst. apply Forall_seq_lt. rewrite app_length. lia.
+    + constructor; unfold ltH; simpl; try apply (wf_live Wf); try apply (wf_hand Wf).
+      intros m ls H. apply in_app_or in H. destruct H as [H|[H|[]]].
+      * apply (wf_store Wf m ls H).
+      * inversion H; subst. apply (wf_live Wf).
+    + constructor; unfold ltH; simpl; try apply (wf_live Wf); try apply (wf_hand Wf).
+      intros m ls H. apply in_app_or in H. destruct H as [H|[H|[]]]; [apply (wf_store Wf m ls H)|discriminate].
+  - (* SetFolder *) destruct Wf. constructor; auto.
+  - apply wfh_get_results; auto.
+  - apply wfh_set_iter; auto.
+  - apply wfh_result_q; auto.
+  - apply wfh_write; auto.
+  - (* SetMesh *) constructor; unfold ltH; simpl.
+    + apply Forall_forall. intros x Hx. apply repeat_spec in Hx. subst. rewrite app_length. simpl. lia.
+    + eapply Forall_lt_mono; [|apply (wf_hand Wf)]. rewrite app_length. lia.
+    + intros m ls H. eapply Forall_lt_mono; [|apply (wf_store Wf m ls H)]. rewrite app_length. lia.
+  - (* SaveLoad *) constructor; unfold ltH; simpl.
+    + apply Forall_reloc. apply (wf_live Wf).
+    + constructor.
+    + intros m ls H. apply in_map_iff in H. destruct H as [[m0 ls0|p] [E H]]; simpl in E; [|discriminate].
+      inversion E; subst. apply Forall_reloc. apply (wf_store Wf m ls0 H).
+  - apply wfh_get_results; auto.
+  - apply wfh_set_iter; auto.
+  - apply wfh_result_q; auto.
+  - destruct (nth_error (handed s) k); auto.
+    apply (@wfh_heap_grow s); simpl; auto. rewrite length_wr. lia.
+Qed.
+
+Theorem wfh_reach : forall c ops, wfh (reach c ops).
+Proof.
+  intros c ops. unfold reach. generalize (wfh_init c). generalize (init c).
+  induction ops as [|o t IH]; intros s Wf; simpl; auto. apply IH. apply wfh_step; auto.
+Qed.
+
+(* EXACTNESS on ALL reachable states: any configuration, any op list (earlier user writes included) *)
+Theorem write_unsafe_corrupts_all : forall c ops k, write_safe (reach c ops) k = false ->
+  exists v, store_vals c (step c (WriteRet k v) (reach c ops)) <> store_vals c (reach c ops).
+Proof.
+  intros c ops k H. pose proof (wfh_reach c ops) as Wf.
+  unfold write_safe in H. destruct (nth_error (handed (reach c ops)) k) as [l|] eqn:E; [|discriminate].
+  apply (@write_unsafe_corrupts c (reach c ops) k l E).
+  - pose proof (wf_hand Wf) as F. unfold ltH in F. rewrite Forall_forall in F. apply F. eapply nth_error_In; eauto.
+  - unfold write_safe. rewrite E. exact H.
+Qed.
+
+(* the predicate is exact: on every reachable state of every configuration, an array is write-safe iff NO value
+   written through it changes what a stored iteration reads *)
+Corollary write_safe_exact : forall c ops k,
+  write_safe (reach c ops) k = true <->
+  (forall v, store_vals c (step c (WriteRet k v) (reach c ops)) = store_vals c (reach c ops)).
+Proof.
+  intros c ops k. split.
+  - intros H v. apply write_safe_sound; auto.
+  - intros H. destruct (write_safe (reach c ops) k) eqn:E; auto.
+    destruct (write_unsafe_corrupts_all c ops k E) as [v Hv]. exfalso. apply Hv. apply H.
+Qed.
+
+(* non-vacuity on a state reached THROUGH earlier writes under a shallow read *)
+Example exact_after_earlier_writes :
+  let c := cfg_demo false in
+  let ops := [Sv [5;6]; SaveIter; GetResults 0; WriteRetAt 0 1 9; Sv [7;8]; SaveIter; SetIter 0; Wr 1 4; GetResults 1]%N in
+  no_writes ops = false /\ write_safe (reach c ops) 0 = false /\
+  store_vals c (step c (Wr 0 3) (reach c ops)) <> store_vals c (reach c ops).
+Proof. split; [reflexivity|split; [reflexivity|vm_compute; discriminate]]. Qed.
+Print Assumptions wfh_reach.
+Print Assumptions write_safe_exact.
